@@ -416,7 +416,9 @@ func runEntry(in input) lib.Case {
 		entryCluster = c
 		c.selfInst = c.instanceAt(in.Self)
 		if c.selfInst == nil {
-			return lib.Case{Discard: true}
+			// all servers are alive at this point: the root could not reach the node
+			entryCluster = nil
+			return cutCase("entry:"+in.Entry, "creating the instance on a live node (root.SendTo + tree propagation)", false, nil)
 		}
 		if in.Warm {
 			// connections from self to everybody exist before the failure
@@ -445,7 +447,7 @@ func runEntry(in input) lib.Case {
 	c := entryCluster
 	p := c.selfInst
 	if p == nil {
-		return lib.Case{Discard: true}
+		return cutCase("entry:"+in.Entry, "no instance on the live node", false, nil)
 	}
 	c.nextID++
 	id := c.nextID
@@ -514,7 +516,7 @@ func runEntry(in input) lib.Case {
 	if !returned {
 		entryCluster = nil // wedged: abandon it instead of waiting for its CloseAll
 		wedgedKinds["entry"]++
-		return lib.Case{Coq: "CCluster 1 1 false true true true", Class: "entry:" + in.Entry + "-blocked", Nontrivial: true,
+		return lib.Case{Coq: "CCluster 1 1 false true true true true", Class: "entry:" + in.Entry + "-blocked", Nontrivial: true,
 			Obs: "the entry point did not return within 15 s"}
 	}
 	// every live destination that can still get the message gets it
@@ -777,9 +779,14 @@ func runClusterParent(in input, raw json.RawMessage) lib.Case {
 		alive = false
 	} else {
 		json.Unmarshal(lastLine(res), &out)
-		if !out.Reached {
-			return lib.Case{Discard: true}
-		}
+	}
+	unreached := alive && !blocked && !out.Reached
+	if unreached {
+		// every server was alive and the run over the full tree had been started: the protocol message
+		// that should have brought the scenario to its moment did not get there within 20 s. The
+		// prefix (canaries so far) is evaluated and the run that did not progress counts as not finished.
+		out.Canaries++
+		out.Returned, out.Told, out.AfterRestart = true, true, true
 	}
 	tr := "mem"
 	if in.TCP {
@@ -792,9 +799,12 @@ func runClusterParent(in input, raw json.RawMessage) lib.Case {
 	if len(out.Zombie) > 0 {
 		cl += "+abandoned"
 	}
-	coq := fmt.Sprintf("CCluster %d %d %s %s %s %s", out.Canaries, out.CanariesDone, lib.Bool(out.Returned), lib.Bool(alive),
-		lib.Bool(out.Told), lib.Bool(out.AfterRestart))
-	if (in.Moment == "treereq" || in.Moment == "treereqlost") && alive && !blocked {
+	if unreached {
+		cl += "+unreached"
+	}
+	coq := fmt.Sprintf("CCluster %d %d %s %s %s %s %s", out.Canaries, out.CanariesDone, lib.Bool(out.Returned), lib.Bool(alive),
+		lib.Bool(out.Told), lib.Bool(len(out.Zombie) == 0), lib.Bool(out.AfterRestart))
+	if (in.Moment == "treereq" || in.Moment == "treereqlost") && alive && !blocked && !unreached {
 		coq = fmt.Sprintf("CTreeReq %s %d %d %s %s %s", lib.Bool(in.Moment == "treereqlost"), out.Canaries, out.CanariesDone,
 			lib.Bool(out.Returned), lib.Bool(alive), lib.Bool(out.AfterRestart))
 	}
@@ -972,12 +982,12 @@ func clusterScenario(in input) clusterOut {
 		}
 		reached := false
 		if gate != nil {
-			reached = gate.WaitHit(8 * time.Second)
+			reached = gate.WaitHit(20 * time.Second)
 		} else {
 			select {
 			case <-hit:
 				reached = true
-			case <-time.After(8 * time.Second):
+			case <-time.After(20 * time.Second):
 			}
 		}
 		if !reached {
@@ -1125,11 +1135,11 @@ func runConfig(in input) lib.Case {
 	svc := c.servers[0].Service(svcName).(*c09svc)
 	pi, err := svc.CreateProtocol(protoName, c.tree)
 	if err != nil {
-		return lib.Case{Discard: true}
+		return cutCase("config", "CreateProtocol on a live server", true, err.Error())
 	}
 	root := pi.(*proto)
 	if err := root.SetConfig(&onet.GenericConfig{Data: []byte("cfg")}); err != nil {
-		return lib.Case{Discard: true}
+		return cutCase("config", "SetConfig", true, err.Error())
 	}
 	victim, control := 1, 2
 	firstFailed := false
